@@ -96,3 +96,5 @@ func runCases(deadline time.Duration, handle func(raw []byte) map[string]interfa
 	}
 	return sc.Err()
 }
+
+func jsonMarshal(v interface{}) ([]byte, error) { return json.Marshal(v) }
